@@ -157,7 +157,10 @@ func (fv *FV) evalSpec(env *SpecEnv, e SExpr) Val {
 		for _, b := range x.Vars {
 			t := env.resolveType(b.Type)
 			s := fv.sess.sortOf(t)
-			bn := b.Name + "!b"
+			// unique binder names: a macro argument mentioning an outer bound
+			// variable must not be captured by a binder of the macro body
+			fv.bcount++
+			bn := fmt.Sprintf("%s!%d!b", b.Name, fv.bcount)
 			n.names[b.Name] = Val{T: bn, S: s, Go: t}
 			bs = append(bs, fmt.Sprintf("(%s %s)", bn, s))
 			if bt, ok := types.Unalias(t).Underlying().(*types.Basic); ok {
